@@ -497,6 +497,63 @@ fn run_op(spec: &Spec) -> Json {
                     }
                     false
                 }
+                // the iterators through the std machinery: whatever a caller's
+                // `collect`, `extend`, `zip` or `last` asks of them
+                "iter-adaptors" => {
+                    let c = v.as_cons().unwrap();
+                    let (lo, hi) = c.iter().size_hint();
+                    let collected: Vec<&lexpr::Cons> = c.iter().collect();
+                    let mut ext: Vec<&Value> = Vec::new();
+                    ext.extend(c.iter().map(|cell| cell.car()));
+                    let zipped = c.iter().zip(0usize..).last().map(|(_, i)| i);
+                    let r#ref: Vec<&lexpr::Cons> = (&*c).into_iter().collect();
+                    lo <= n
+                        && hi.map_or(true, |h| h >= n)
+                        && collected.len() == n
+                        && ext.len() == n
+                        && zipped == Some(n - 1)
+                        && r#ref.len() == n
+                        && c.iter().last().is_some()
+                        && c.iter().nth(n - 1).is_some()
+                        && c.iter().nth(n).is_none()
+                        && c.iter().skip(n - 1).count() == 1
+                        && c.iter().step_by(1000).count() == (n + 999) / 1000
+                        && c.iter().fold(0usize, |a, _| a + 1) == n
+                        && c.iter().enumerate().filter(|(i, _)| i % 2 == 0).count() == (n + 1) / 2
+                        && c.iter().max_by_key(|cell| cell.car().is_null()).is_some()
+                }
+                "list_iter-adaptors" => {
+                    let it = || v.list_iter().unwrap();
+                    let (lo, hi) = it().size_hint();
+                    let collected: Vec<&Value> = it().collect();
+                    let want = n + if proper { 0 } else { 1 };
+                    let _ = want;
+                    lo <= collected.len()
+                        && hi.map_or(true, |h| h >= collected.len())
+                        && collected.len() >= n
+                        && it().last().is_some()
+                        && it().nth(n - 1).is_some()
+                        && it().zip(0usize..).count() == collected.len()
+                        && it().fold(0usize, |a, _| a + 1) == collected.len()
+                }
+                "into_iter-adaptors" => {
+                    if let Value::Cons(c) = v {
+                        let c2 = c.clone();
+                        let c3 = c.clone();
+                        let c4 = c.clone();
+                        let (lo, hi) = c.clone().into_iter().size_hint();
+                        let collected: Vec<(Value, Option<Value>)> = c.into_iter().collect();
+                        let last = c2.into_iter().last();
+                        let nth = c3.into_iter().nth(n - 1);
+                        let mut ext: Vec<Value> = Vec::new();
+                        ext.extend(c4.into_iter().map(|(x, _)| x));
+                        return json!({"ok": lo <= n && hi.map_or(true, |h| h >= n) && collected.len() == n
+                            && last.map_or(false, |(_, t)| t.map_or(false, |t| t.is_null() == proper))
+                            && nth.map_or(false, |(_, t)| t.is_some())
+                            && ext.len() == n});
+                    }
+                    false
+                }
                 "cons-into_vec" | "into_iter-count" => {
                     if let Value::Cons(c) = v {
                         return json!({"ok": if op == "cons-into_vec" {
@@ -587,7 +644,7 @@ pub fn judge(s: &Spec, out: &ChildOutcome) -> Result<CaseResult, String> {
 const VALUE_OPS: &[&str] = &[
     "print-to_string", "print-display", "print-to_writer", "cons-to_vec", "cons-into_vec", "cons-to_ref_vec", "value-to_vec",
     "value-to_ref_vec", "iter-count", "list_iter-count", "into_iter-count", "get-last", "index-max", "index-name", "is_list",
-    "is_dotted_list", "clone", "cons-clone_from", "value-clone_from", "eq", "ne-last", "ne-everywhere", "ne-half", "drop", "drop-tail", "into_iter-partial-drop",
+    "is_dotted_list", "iter-adaptors", "list_iter-adaptors", "into_iter-adaptors", "clone", "cons-clone_from", "value-clone_from", "eq", "ne-last", "ne-everywhere", "ne-half", "drop", "drop-tail", "into_iter-partial-drop",
 ];
 const PARSE_OPS: &[&str] = &["parse-str", "parse-slice", "parse-reader", "parse-iter", "parse-error-discard", "parse-dotted-chain"];
 const DATUM_OPS: &[&str] = &[
